@@ -668,13 +668,7 @@ def _(c):
                      z3.And(st == ST_POST, z3.Length(toks(L[i])) > 0))
     c.exc_ensures('unsigned-data-only-outside-the-signed-block', 'ManifestUnsignedData', unsigned_data, internal=True)
 
-    def modifies(it, bound):
-        ctx = it.ctx
-        me = bound['self']
-        for f in ('entries', 'openpgp_signed', 'openpgp_signature'):
-            ty = it.engine.field_type(f)
-            ctx.heap[f] = z3.Store(ctx.field_array(f), me.t, ctx.fresh_const('load!' + f, ty.sort()))
-    c.modifies(modifies)
+    c.modifies(('self', 'entries'), ('self', 'openpgp_signed'), ('self', 'openpgp_signature'))
     c.ensures('unverified-load-is-never-signed',
               lambda s: z3.Implies(z3.Not(s.verify_openpgp),
                                    s.self.openpgp_signed == opt_sort(z3.BoolSort()).some(z3.BoolVal(False))),
@@ -781,15 +775,9 @@ def _(c):
         it.engine.opaque_attr_hook = attr_hook
     c.setup = setup
 
-    def modifies(it, bound):
-        ctx = it.ctx
-        me, f = bound['self'], ctx.force(bound['f'])
-        ty = it.engine.field_type('entries')
-        ctx.heap['entries'] = z3.Store(ctx.field_array('entries'), me.t, ctx.fresh_const('dump!entries', ty.sort()))
-        ctx.heap['_written'] = z3.Store(ctx.field_array('_written'), f.t, ctx.fresh_const('dump!written', SS))
-    c.modifies(modifies)
+    c.modifies(('self', 'entries'), ('f', '_written'))
 
-    c.loop(1, header='for e in self.entries', havoc_fields=['_written'],
+    c.loop(1, header='for e in self.entries', havoc_fields=[('f', '_written')],
            inv=[('written-so-far', lambda s: z3.And(
                s.f._written == z3.Concat(s.old.f._written, dump_text(s, s.seq, s.i)),
                s.seq == s.self.entries))],
